@@ -38,7 +38,7 @@ PARTIAL = {
     'documented errors is decided by the mutation oracle (S-open), not proved. Memory and wall-clock are measured, not proved.',
 }
 TRUSTED = ['the mutation generator reaches the fields the parser follows (per-structure counts in the evidence)']
-ASSUMPTIONS = ['CPU-bound Python loops are interruptible by SIGALRM']
+ASSUMPTIONS = ['CPU-bound Python loops are interruptible by SIGPROF / SIGALRM']
 RULE = ('mutants = truncations + field corruptions + splices of seed images; distinct = (seed image hash, mutation); non-trivial = the '
         'mutant is not byte-identical to its seed and the parser reaches the mutated bytes or rejects the image')
 LEVEL_TEXT = ('Lean 4 theorem: a breadth-first directory walk that skips already-visited extents terminates, visits each extent at most '
@@ -61,8 +61,12 @@ def _alarm(signum, frame):
 def open_one(data, limit):
     """open the byte string; returns (outcome, detail)"""
     import pycdlib
+    # the limit is CPU time of this worker (an endless loop burns CPU), so that a loaded machine cannot fake a hang;
+    # a generous wall-clock alarm backs it up
+    signal.signal(signal.SIGPROF, _alarm)
     signal.signal(signal.SIGALRM, _alarm)
-    signal.setitimer(signal.ITIMER_REAL, limit)
+    signal.setitimer(signal.ITIMER_PROF, limit)
+    signal.setitimer(signal.ITIMER_REAL, 30 * limit)
     rss0 = resource.getrusage(resource.RUSAGE_SELF).ru_maxrss
     iso = pycdlib.PyCdlib()
     try:
@@ -70,9 +74,10 @@ def open_one(data, limit):
             iso.open_fp(io.BytesIO(data))
             out = ('ok', '')
         finally:
+            signal.setitimer(signal.ITIMER_PROF, 0)
             signal.setitimer(signal.ITIMER_REAL, 0)
     except _Timeout:
-        out = ('timeout', 'no result within %.1f s' % limit)
+        out = ('timeout', 'no result within %.1f s of CPU time' % limit)
     except Exception as e:  # noqa
         cls = isoapi.exc_class(e)
         if cls in DOCUMENTED:
